@@ -637,6 +637,20 @@ fn search_client(obs: &[&str]) {
         let c = conn.read().unwrap();
         if c.reader.is_none() || c.writer.is_none() { fail("reuse", json!({"reply": reply, "observed": "connection not returned after the final reply"})); }
     }
+    // what goes on the wire is the request with exactly the arguments given: an argument struct that serialises to `{}` (a method whose inputs are all optional and unset) still
+    // travels as `"parameters":{}` -- generated dispatch answers a request WITHOUT that member with InvalidParameter("parameters")
+    for (args, want) in [(json!({}), json!({})), (json!({"a": null}), json!({"a": null})), (json!({"x": {"y": []}}), json!({"x": {"y": []}}))] {
+        explored += 1;
+        let (conn, w) = client_conn(b"{}\0");
+        let mut mc = MC::new(conn.clone(), "a.b.C", args.clone());
+        let _ = mc.call();
+        let sent = w.lock().unwrap().clone();
+        let body = sent.split(|b| *b == 0).next().unwrap_or(&[]).to_vec();
+        let v: Value = serde_json::from_slice(&body).unwrap_or(Value::Null);
+        if v.get("method") != Some(&json!("a.b.C")) || v.get("parameters") != Some(&want) {
+            fail("wire", json!({"arguments": args, "request_on_the_wire": String::from_utf8_lossy(&body), "expected_member": {"parameters": want}}));
+        }
+    }
     // busy / once / oneway / more
     {
         explored += 1;
@@ -704,7 +718,7 @@ fn search_client(obs: &[&str]) {
     drop(fail);
     for ob in obs {
         let class = match *ob { "C07.outcome" | "C07.kind" => "outcome", "C07.reuse" | "C07.take" => "reuse", "C07.busy" => "busy", "C07.once" => "once",
-            "C05.recv" | "C05.next" | "C05.more" => "iter", "C04.client" => "oneway", _ => "none" };
+            "C05.recv" | "C05.next" | "C05.more" => "iter", "C04.client" => "oneway", "C07.wire" | "C08.client" => "wire", _ => "none" };
         let f = found.get(class);
         emit(ob, f.is_some(), explored, f.cloned().unwrap_or(Value::Null));
     }
@@ -2389,7 +2403,7 @@ fn main() {
     if !det && m("C14.bound") { search_pool_bound("C14.bound"); }
     if !det && m("C14.no-strand") { search_pool_strand("C14.no-strand"); }
     if !det && m("C14.w-monotone") { search_pool_strand("C14.w-monotone"); }
-    let cl: Vec<&str> = ["C07.once", "C07.busy", "C07.take", "C07.reuse", "C07.outcome", "C07.kind", "C05.recv", "C05.next", "C05.more", "C04.client"].iter().cloned().filter(|o| m(o)).collect();
+    let cl: Vec<&str> = ["C07.once", "C07.busy", "C07.take", "C07.reuse", "C07.outcome", "C07.kind", "C07.wire", "C08.client", "C05.recv", "C05.next", "C05.more", "C04.client"].iter().cloned().filter(|o| m(o)).collect();
     if !cl.is_empty() { search_client(&cl); }
     let th: Vec<&str> = ["C07.busy", "C07.take", "C07.no-panic"].iter().cloned().filter(|o| m(o)).collect();
     if !det && !th.is_empty() { search_client_threads(&th); }
